@@ -6,22 +6,30 @@ def run(ctx):
     q = ctx.tier == "quick"
     t = "quick" if q else "thorough"
     ctx.build_harness()
-    specs = [("AvcSyntax", "Avc_%s_%s.cfg" % (s, t)) for s in ("sps", "pps", "slice")]
-    import os
-    if os.path.exists(os.path.join(ctx.specdir, "HevcSyntax.tla")):
-        specs += [("HevcSyntax", "Hevc_%s.cfg" % t)]
-    for mod, cfg in specs:
+    specs = [("AvcSyntax", "Avc_%s_%s.cfg" % (s, t), "c15-replay") for s in ("sps", "pps", "slice")]
+    specs += [("HevcSyntax", "Hevc_%s_%s.cfg" % (s, t), "c15-hevc-replay") for s in ("sps", "pps", "slice")]
+    counts = {}
+    for mod, cfg, cmd in specs:
         r = ctx.tlc_ok(mod, cfg, workers=14, timeout=3000, heap="16g", stack="256m")
         if not r.exported:
             raise core.Machinery("nothing exported by " + cfg)
+        counts[cfg] = len(r.exported)
         inp = ctx.write_ndjson(cfg + ".ndjson", r.exported)
-        core.absorb(ctx, ctx.harness(["c15-replay", "-in", inp], timeout=3000))
+        core.absorb(ctx, ctx.harness([cmd, "-in", inp], timeout=3000))
     ctx.cov["bounds"] = {"avc_sps": "6 base vectors x every field over its boundary set%s; VUI/HRD single-field and branch pairs" % ("" if q else " + all field pairs on 2 bases"),
                          "avc_pps": "single-field%s variations x 6 (pps id, sps id) assignments x 2 SPS contexts" % ("" if q else " and pairwise"),
-                         "avc_slice": "single-field variations x 5 SPS contexts x 5 PPS contexts x nal types {1,5} x nal_ref_idc {0,1,3}, slice types 0..9"}
+                         "avc_slice": "single-field variations x 5 SPS contexts x 5 PPS contexts x nal types {1,5} x nal_ref_idc {0,1,3}, slice types 0..9",
+                         "hevc_sps": "7 base vectors (1..7 sub-layers, 4:0:0/4:2:0/4:2:2/4:4:4 + separate planes, 7 short-term RPS lists incl. inter-predicted chains, long-term pictures, "
+                                     "scaling lists, PCM, range extension) x every field over its boundary set%s; VUI and HRD (sub-picture, NAL/VCL, per-sub-layer branches) single-field and branch pairs; "
+                                     "hvcC record and codec string built from every vector" % ("" if q else " + all field pairs on 2 bases"),
+                         "hevc_pps": "2 bases (tiles, deblocking control, range extension) x single-field%s variations x 6 (pps id, sps id) assignments" % ("" if q else " and pairwise"),
+                         "hevc_slice": "single-field%s variations x 5 SPS contexts x 7 PPS contexts x nal types {TRAIL_R, IDR_W_RADL, CRA}: dependent segments, SPS / slice-level / inter-predicted RPS, "
+                                       "long-term pictures, ref-pic-list modification (NumPicTotalCurr), pred-weight tables, deblocking override and inference, entry points, header extension" % ("" if q else " and pairwise"),
+                         "vectors": counts}
     ctx.cov["rule"] = ("one behaviour per value vector enumerated by the syntax spec; the NAL unit is serialised by the TLA+ transcription of the "
                        "standard (incl. emulation prevention) and parsed by the real parser; non-trivial = vector reached the field comparison")
     ctx.cov["traces_validated_against_impl"] = 0
     ctx.assumptions += ["scaling lists that fall back to the default matrix (first delta makes nextScale 0) are not compared",
-                        "slice groups, MVC/SVC NAL types and explicit pred-weight values are outside the generated syntax"]
+                        "slice groups, MVC/SVC NAL types and explicit pred-weight values are outside the generated AVC syntax",
+                        "HEVC multilayer / 3D / SCC extensions and VPS parsing are outside the generated syntax; scaling list data is only skipped by the parser, so only its length is exercised"]
     return ctx.finish("model_checking", exhaustive=True)
